@@ -93,6 +93,12 @@ func runC20Wire(rep *TReport, raw json.RawMessage) {
 	ctx := context.Background()
 	rec := httptest.NewRecorder()
 	state := "state-0123456789"
+	switch r.Text { // the state is the client's string: it is reflected, so it is hostile in the rows whose texts are
+	case "quotes", "html", "script", "control":
+		state = "st-0123&error=access_denied&injected=1+$:@=;#?/\"<'>%26 end"
+	case "unicode":
+		state = "st-0123456789-é中文+ "
+	}
 	mkAR := func(mode fosite.ResponseModeType, valid bool) *fosite.AuthorizeRequest {
 		ar := fosite.NewAuthorizeRequest()
 		ar.Client = w.Mem.Clients["A"]
